@@ -119,14 +119,25 @@ fn typecheck_single_file_for_query(
     Ok((hir_table, results, genv, parse_diagnostics))
 }
 
+/// Byte offset addressed by a zero-based line and UTF-8 column, if that position lies inside
+/// `src` on a character boundary. Editors may send positions past the end of a line or of the
+/// text (stale cursor, text shortened in the meantime); those have no offset.
+fn offset_at(src: &str, line: u32, col: u32) -> Option<TextSize> {
+    let line_index = line_index::LineIndex::new(src);
+    let start = line_index.offset(line_index::LineCol { line, col: 0 })?;
+    let offset = u32::from(start).checked_add(col)?;
+    if offset as usize > src.len() || !src.is_char_boundary(offset as usize) {
+        return None;
+    }
+    Some(TextSize::from(offset))
+}
+
 pub fn hover_type(path: &Path, src: &str, line: u32, col: u32) -> Result<String, String> {
     let result = parser::parse(path, src);
     let root = MySyntaxNode::new_root(result.green_node);
     let cst = cst::cst::File::cast(root).ok_or_else(|| "failed to cast syntax tree".to_string())?;
 
-    let line_index = line_index::LineIndex::new(src);
-    let offset = line_index
-        .offset(line_index::LineCol { line, col })
+    let offset = offset_at(src, line, col)
         .ok_or_else(|| "failed to get offset from line and column".to_string())?;
     let node = cst.syntax().token_at_offset(offset);
     let token = match node {
@@ -285,8 +296,7 @@ pub fn dot_completions(
     line: u32,
     col: u32,
 ) -> Option<Vec<DotCompletionItem>> {
-    let line_index = line_index::LineIndex::new(src);
-    let offset = line_index.offset(line_index::LineCol { line, col })?;
+    let offset = offset_at(src, line, col)?;
     let (prefix_start, prefix) = ident_prefix_at_offset(src, offset)?;
     let dot_offset = prefix_start.checked_sub(TextSize::from(1))?;
     if src.as_bytes().get(u32::from(dot_offset) as usize) != Some(&b'.') {
@@ -423,8 +433,7 @@ pub fn colon_colon_completions(
     line: u32,
     col: u32,
 ) -> Option<Vec<ColonColonCompletionItem>> {
-    let line_index = line_index::LineIndex::new(src);
-    let offset = line_index.offset(line_index::LineCol { line, col })?;
+    let offset = offset_at(src, line, col)?;
     let (prefix_start, prefix) = ident_prefix_at_offset(src, offset)?;
     let colon_start = prefix_start.checked_sub(TextSize::from(2))?;
     if src
